@@ -91,7 +91,10 @@ ASSUMPTIONS = [
     "outcome-dependent parameters refer to outcome positions, which relabelling keeps",
     "excluded by construction (known findings, counted): passive simulator with >= 2 "
     "successive measurements and shots=None (C03:exact:P:sequential-measurements), passive "
-    "Kerr after a measurement (C13:valid-crash:P:kerr-after-measurement)",
+    "Kerr after a measurement (C13:valid-crash:P:kerr-after-measurement), passive exact "
+    "measurement of a proper subset of the remaining modes after a post-selection (found "
+    "here, C16:P:exact-measurement-after-postselection:remapped-modes; replayed on a fixed "
+    "grid by the part passive_postselect_measure)",
     "finite-shot samples are not compared (samplers are not label-independent); sampling "
     "distributions are compared through the exact maps (shots=None weights, "
     "get_marginal_fock_probabilities)",
@@ -618,9 +621,28 @@ def relabel_meas_case(draw):
     return {"desc": desc, "perm": perm}
 
 
+B_PPS = "C16:P:exact-measurement-after-postselection:remapped-modes"
+
+
+def marginal_measurement_after_postselection(desc):
+    """Trigger of B_PPS: passive simulator, shots=None, a measurement of a proper subset of
+    the remaining modes after a post-selection."""
+    rest, seen = list(range(desc["d"])), False
+    for s in desc["steps"]:
+        if s["k"] == "measure" and seen and set(s["modes"]) != set(rest):
+            return True
+        if s["k"] in ("measure", "postselect"):
+            seen = seen or s["k"] == "postselect"
+            rest = [m for m in rest if m not in s["modes"]]
+    return False
+
+
 def passive_excluded(desc, ctx):
     if desc["sim"] != "P":
         return False
+    if marginal_measurement_after_postselection(desc):
+        ctx.exclude(B_PPS)
+        return True
     if aprogs.kerr_after_measurement(desc):
         ctx.exclude("C13:valid-crash:P:kerr-after-measurement")
         return True
@@ -661,6 +683,46 @@ def prop_relabel_meas(case, ctx):
     n = compare_results(sim, ra, rb, rho, "relabel_meas")
     if n:
         ctx.count("branch_states_compared", n)
+
+
+# dedicated part for the confirmed finding B_PPS (its trigger is excluded from the search)
+
+def pps_cases(tier):
+    out = []
+    for occ in ([0, 1, 0], [1, 1, 0], [0, 1, 1]):
+        for ps, m in ((0, 2), (0, 1), (1, 2), (2, 0)):
+            if occ[ps]:
+                continue
+            for perm in ([1, 0, 2], [2, 1, 0], [1, 2, 0]):
+                out.append({"occ": occ, "ps": ps, "m": m, "perm": perm})
+    return out
+
+
+def prop_pps(case, ctx):
+    occ, ps, m, perm = case["occ"], case["ps"], case["m"], case["perm"]
+    desc = {"sim": "P", "d": 3, "cutoff": sum(occ) + 1, "hbar": 2.0,
+            "prep": {"kind": "number", "occ": occ},
+            "steps": [{"k": "gate", "g": "Beamsplitter", "modes": [1, 2],
+                       "p": {"theta": 0.4, "phi": 0.3}},
+                      {"k": "postselect", "modes": [ps], "photons": [0]},
+                      {"k": "measure", "m": "ParticleNumberMeasurement", "modes": [m], "p": {}}]}
+    ctx.case(case, True, ["passive_postselect_then_measure"])
+    what = (f"PassiveSimulator, shots=None, NumberState({occ}), Beamsplitter(0.4, 0.3) on (1, 2), "
+            f"PostSelectPhotons((0,)) on mode {ps}, ParticleNumberMeasurement on mode {m}")
+    out = []
+    for dsc in (desc, relabel_adaptive(desc, perm), {**desc, "sim": "PF"}):
+        try:
+            out.append({k: v[0] for k, v in branch_table(run_adaptive(dsc)).items()})
+        except PiquassoException as e:
+            raise Violation(B_PPS, f"{what}{'' if dsc is desc else ' (relabelled by ' + str(perm) + ')'}"
+                                   f": refused with '{str(e)[:120]}' although the measured mode "
+                                   f"is not post-selected")
+    base, rel, pf = out
+    for name, other in (("the relabelled program", rel), ("the pure Fock simulator", pf)):
+        keys = set(base) | set(other)
+        bad = max(abs(base.get(k, 0.0) - other.get(k, 0.0)) for k in keys)
+        if bad > TOL:
+            raise Violation(B_PPS, f"{what}: weights {base} differ from {name} {other}")
 
 
 # ------------------------------------------------------------------------------ commute
@@ -1197,25 +1259,27 @@ def prop_fermionic(case, ctx):
 
 def parts(tier):
     return [
+        Part("passive_postselect_measure", prop_pps, kind="enum", cases=pps_cases,
+             budget_s={"quick": 20, "thorough": 60}),
         Part("relabel", prop_relabel, strategy=relabel_case(),
              examples={"quick": 640, "thorough": 10000},
-             budget_s={"quick": 60, "thorough": 1500}),
+             budget_s={"quick": 40, "thorough": 1500}),
         Part("relabel_meas", prop_relabel_meas, strategy=relabel_meas_case(),
              examples={"quick": 480, "thorough": 8000},
-             budget_s={"quick": 45, "thorough": 1200}),
+             budget_s={"quick": 30, "thorough": 1200}),
         Part("commute", prop_commute, strategy=commute_case(),
              examples={"quick": 320, "thorough": 6000},
-             budget_s={"quick": 40, "thorough": 1200}),
+             budget_s={"quick": 25, "thorough": 1200}),
         Part("commute_meas", prop_commute_meas, strategy=commute_meas_case(),
              examples={"quick": 240, "thorough": 4000},
-             budget_s={"quick": 30, "thorough": 900}),
+             budget_s={"quick": 20, "thorough": 900}),
         Part("commute_active", prop_commute_active, strategy=commute_active_case(),
              examples={"quick": 64, "thorough": 1500},
-             budget_s={"quick": 30, "thorough": 1200}),
+             budget_s={"quick": 20, "thorough": 1200}),
         Part("permuted_gate", prop_permuted_gate, strategy=permuted_gate_case(),
              examples={"quick": 320, "thorough": 6000},
-             budget_s={"quick": 30, "thorough": 900}),
+             budget_s={"quick": 20, "thorough": 900}),
         Part("fermionic", prop_fermionic, strategy=fermionic_case(),
              examples={"quick": 480, "thorough": 8000},
-             budget_s={"quick": 40, "thorough": 1200}),
+             budget_s={"quick": 25, "thorough": 1200}),
     ]
